@@ -119,6 +119,12 @@ func c18Scenario(c *choice.Ctx, rep *report.R, k c18Kind, depth int) {
 	}
 	const timeout = 2 * time.Second
 	var calls []*call
+	finished := false
+	defer func() {
+		if !finished {
+			abandon(tr, d, &calls)
+		}
+	}()
 	closes, closeReturned := 0, 0
 	afterClose := map[int]bool{}
 	handled := map[int]int{}
@@ -246,6 +252,7 @@ func c18Scenario(c *choice.Ctx, rep *report.R, k c18Kind, depth int) {
 	for _, cl := range calls {
 		st = append(st, cl.String())
 	}
+	finished = true
 	rep.Eval(k.name + ":" + strings.Join(trace, ",") + "=>" + strings.Join(st, ","))
 	rep.State(fmt.Sprintf("%s|%v|%d", k.name, st, d.NumConns()))
 }
